@@ -10,7 +10,7 @@
 //   W                   wait for all children
 //   Y                   sleep 20 ms
 //   Q code              exit_group(code)
-// specials: @null @unmapped @kernel @odd @nonul<N> @edge$i @cross$i @how<flags>/<mode>/<resolve> @howbad @howshort
+// specials: @null @unmapped @kernel @odd @nonul<N> @edge$i @cross$i @wo$i @xo$i @how<flags>/<mode>/<resolve> @howbad @howshort
 // Built with: gcc -static -nostdlib -O1 -fno-stack-protector
 typedef unsigned long u64;
 typedef long i64;
@@ -136,6 +136,17 @@ static i64 parse_arg(const char *s, const char **end) {
       char *p = before_guard(n);
       for (long i = 0; i < n; i++) p[i] = src[i];
       return (i64)p;
+    }
+    if (starts(s, "@wo$") || starts(s, "@xo$")) {
+      // the string in a page the tracee's kernel-side reads accept but that is not mapped readable:
+      // PROT_WRITE only / PROT_EXEC only (cross-process reads without FOLL_FORCE refuse such pages)
+      const char *src = strs[parse_int(s + 4, 0)];
+      long n = slen_(src) + 1;
+      long pages = (n + 4095) / 4096;
+      char *m = (char *)sc6(NR_mmap, 0, pages * 4096, 3, 0x22, -1, 0);
+      for (long i = 0; i < n; i++) m[i] = src[i];
+      SC(NR_mprotect, m, pages * 4096, s[1] == 'w' ? 2 : 4);
+      return (i64)m;
     }
     if (starts(s, "@howbad")) return (i64)guard;
     if (starts(s, "@howshort")) {
